@@ -40,7 +40,8 @@ Print Assumptions C15_sync_async_same_source.
    server scripts `srv` (no bound on either; the proofs are inductions over both).
    Vocabulary (Proofs/C15.v): is_alter p (p is an AlterContext), alter_token / sent_ctxs / sent_flags (fields of a
    PDU sent), reply_token (auth_value of an ack, None for other PDUs), has_flag a (a is an ack whose
-   packet_flags has PFC_SUPPORT_HEADER_SIGN, Z.land flags 4 <> 0), expected a e (a is the kind of ack awaited),
+   packet_flags has PFC_SUPPORT_HEADER_SIGN, Z.land flags 4 <> 0), expected a e (a DECODES -- every result code of an ack is a member of ContextResultCode, Handshake.reply_decodes; an ack with another
+   code is refused with ValueError while it is decoded, like a PDU of the wrong kind -- and is the kind of ack awaited),
    expect_at k (bind_ack for reply 0, alter_context_resp afterwards), fed_all consumed = None :: [Some (token or b"") of each reply].
    ===================================================================================================== *)
 
@@ -136,12 +137,13 @@ Theorem C15_result : forall l ls srv ctxs r s, bind_run true (l :: ls) srv ctxs 
 Proof. exact result_is_bind_ack. Qed.
 Print Assumptions C15_result.
 
-(* 6. anonymous bind: exactly one Bind, flags 0, no token, no step, no signing; the result is the bind_ack's or the error *)
+(* 6. anonymous bind: exactly one Bind, flags 0, no token, no step, no signing; the result is the bind_ack's (when it decodes: every
+   result code a ContextResultCode member) or the error *)
 Theorem C15_anonymous : forall legs srv ctxs r s, bind_run false legs srv ctxs = (r, s) ->
   trace s = [SBind 0 None ctxs] /\ steps s = [] /\ sign s = false /\
   match srv with
   | [] => r = Raise EOFError /\ server s = []
-  | RBindAck rs _ _ :: rest => r = Ok rs /\ server s = rest
+  | RBindAck rs _ _ :: rest => r = (if forallb result_code_ok rs then Ok rs else Raise ValueError) /\ server s = rest
   | _ :: rest => r = Raise ValueError /\ server s = rest
   end.
 Proof. exact anonymous. Qed.
@@ -433,3 +435,13 @@ Example C15_flow_sync_bind_example :
                            cn_st := {| trace := [SBind 4 (Some T1) [0; 1]; SAlter 4 T2 [0]; SAlter 4 T3 [0]];
                                        steps := [None; Some S1; Some S2]; sign := true; server := [] |} |}))).
 Proof. vm_compute. reflexivity. Qed.
+
+(* an ack carrying a result code outside ContextResultCode (here 7) does not decode: ValueError while the reply is read, the handshake
+   stops there -- the client does not go on with a context the server never accepted (seeded change: a `_missing_` hook mapping unknown
+   codes to ACCEPTANCE) *)
+Example C15_ex_unknown_result_code :
+  bind_run true [lg T1 false; lg T2 true] [RBindAck [7; 0] 7 (Some S1); RAlterResp [0] 7 None] [0; 1]
+  = (Raise ValueError, {| trace := [SBind 4 (Some T1) [0; 1]]; steps := [None]; sign := true; server := [RAlterResp [0] 7 None] |})
+  /\ fst (bind_run false [] [RBindAck [0; 4] 3 None] [0; 1]) = Raise ValueError
+  /\ expected (RBindAck [7; 0] 7 (Some S1)) EBindAck = false.
+Proof. repeat split; vm_compute; reflexivity. Qed.
